@@ -1,4 +1,6 @@
 import CJ.Model.HalfPipe
+import CJ.Lemmas.RelayClock
+import CJ.Gen.RelayLoop
 /-!
 # C04 — the hand-off: relay deadlines on the wrapped connection
 
@@ -12,6 +14,11 @@ client is recognised (C04) but nothing is relayed unless that fallback succeeds.
 
 The statements below are about the core of the relay model only (`armBoth`, `loop`), whatever the read
 and write scripts are.
+
+The second half (`### the clock`) is about *when* those deadlines expire: the model of
+`CJ/Model/RelayClock.lean` keeps a virtual clock and the deadline of each of the two connections, and is
+parametric in which connections a direction re-arms per iteration; that list is regenerated from the
+source under check (`CJ.Gen.relayLoopStmts`, `CJ.Gen.relayInitArms`).
 -/
 namespace CJ.Props.C04Relay
 open CJ.HalfPipe
@@ -81,5 +88,101 @@ tunnels that "relayed nothing" (repaired in `/repo`, DESIGN §10.3 C04). -/
 theorem relay_needs_deadline_support (ds : List DlRes) :
     armBoth (.unsupported false :: ds) = ([.dl true false true], some true, ds) := by
   simp [armBoth, arm, popDl, DlRes.succeeds, DlRes.viaFallback]
+
+/-! ### the clock: traffic in either direction keeps both connections alive
+
+C04 promises that *every* application byte reaches the covert and every byte of the reply reaches the
+client.  The relay cuts a tunnel whose connection stays silent past its deadline, so the promise needs:
+a connection's deadline is pushed forward by the traffic it *carries*, not only by what is read from it
+— each iteration of either direction re-arms **both** connections (the comment in the source says so:
+"if connection is sending traffic unidirectionally we prevent the receiving side from timing out"). -/
+
+open CJ.RelayClock in
+/-- **Keep-alive.**  If each direction arms both of its connections in front of its loop (init timeout)
+and again at the end of every iteration (stall timeout), then for every script of chunks and pauses in
+which the pause since the last chunk of *either* direction never exceeds the timeout in force
+(`paced`: one direction may stay silent for ever), no deadline ever expires: the tunnel is alive at the
+end, everything the client sent has reached the covert, everything the covert sent has reached the
+client, nothing was lost, no error was recorded.  Any timeouts, any number of events. -/
+theorem keepalive_no_expiry (c : Cfg) (hi : Covers c.initArms .init) (hl : Covers c.loopArms .stall)
+    (evs : List Evt) (hp : paced c.stall c.init 0 evs = true) :
+    (run c evs).alive = true ∧ (run c evs).up = sent true evs ∧ (run c evs).down = sent false evs ∧
+      (run c evs).lost = 0 ∧ (run c evs).cli = "" ∧ (run c evs).cov = "" := by
+  obtain ⟨_, _, h⟩ := foldl_inv c hl evs (start c) c.init 0 [] [] (start_inv c hi) hp
+  obtain ⟨ha, _, hu, hd, hlost, hcli, hcov⟩ := h
+  simp only [List.nil_append] at hu hd
+  exact ⟨ha, hu, hd, hlost, hcli, hcov⟩
+
+open CJ.RelayClock in
+/-- **Tie**: the body of the relay loop in the source under check is the one the models mirror (read;
+write what was read, `break` on a write error; `break` on a read error; re-arm src, re-arm dst, each
+followed by `return` on failure), `.other` statements aside … -/
+theorem loop_skeleton_matches : loopSkeleton CJ.Gen.relayLoopStmts = canonicalLoop := by decide
+
+open CJ.RelayClock in
+/-- … in particular every iteration re-arms the source **and** the destination with the stall timeout,
+and the calls in front of the loop arm both with the init timeout -/
+theorem source_arms_both : Covers (armsOf CJ.Gen.relayLoopStmts) .stall ∧ Covers CJ.Gen.relayInitArms .init := by
+  refine ⟨⟨?_, ?_, ?_⟩, ⟨?_, ?_, ?_⟩⟩ <;> decide
+
+open CJ.RelayClock in
+/-- the configuration read off the source under check -/
+def sourceCfg : Cfg :=
+  { init := CJ.Gen.proxyInitTimeoutMs, stall := CJ.Gen.proxyStallTimeoutMs,
+    initArms := CJ.Gen.relayInitArms, loopArms := armsOf CJ.Gen.relayLoopStmts }
+
+open CJ.RelayClock in
+/-- both timeouts of the source under check are positive (with a zero timeout `paced` allows no pause) -/
+theorem source_timeouts_positive : 0 < sourceCfg.init ∧ 0 < sourceCfg.stall := by decide
+
+open CJ.RelayClock in
+/-- **Keep-alive for the relay as written**: a paced transfer of any length and any mix of directions —
+an upload to a covert that never answers, a download to a client that never speaks again — is delivered
+in full and the tunnel stays up. -/
+theorem keepalive_source (evs : List Evt) (hp : paced sourceCfg.stall sourceCfg.init 0 evs = true) :
+    (run sourceCfg evs).alive = true ∧ (run sourceCfg evs).up = sent true evs ∧
+      (run sourceCfg evs).down = sent false evs ∧ (run sourceCfg evs).lost = 0 :=
+  have h := keepalive_no_expiry sourceCfg source_arms_both.2 source_arms_both.1 evs hp
+  ⟨h.1, h.2.1, h.2.2.1, h.2.2.2.1⟩
+
+open CJ.RelayClock in
+/-- **The requirement is real**: a direction that re-arms only the connection it reads from (the second
+call addressing `src` again) cuts a steady upload to a silent covert when the covert's *initial*
+deadline runs out — here 30 s into a transfer that sends a byte every 20 s — and the bytes sent
+afterwards are lost. -/
+theorem refresh_both_needed :
+    let c : Cfg := { init := 30, stall := 120, loopArms := [(true, .stall), (true, .stall)] }
+    let evs := [Evt.chunk true [1], .wait 20, .chunk true [2], .wait 20, .chunk true [3]]
+    paced c.stall c.init 0 evs = true ∧ (run c evs).alive = false ∧ (run c evs).up = [1, 2] ∧
+      (run c evs).lost = 1 ∧ (run c evs).cov = "timeout" ∧ diedAt c (start c) 0 evs = some 3 := by decide
+
+open CJ.RelayClock in
+/-- **An idle tunnel is given up**: once the clock passes the deadline of either connection, the
+direction blocked in `Read` on it times out and the tunnel ends (C05 proves what the exit tears down). -/
+theorem idle_tunnel_expires (c : Cfg) (s : St) (dt d : Nat)
+    (h : s.dlClient = some d ∨ s.dlCovert = some d) (hlt : d < s.now + dt) : (step c s (.wait dt)).alive = false := by
+  simp only [step]
+  cases hal : s.alive with
+  | false => simp
+  | true =>
+    rcases h with h | h
+    · have : expired (s.now + dt) s.dlClient = true := by simp [h, expired, hlt]
+      simp [this]
+    · have : expired (s.now + dt) s.dlCovert = true := by simp [h, expired, hlt]
+      simp [this]
+
+open CJ.RelayClock in
+/-- … and not before: while the clock has not passed either deadline a pause changes nothing but the clock -/
+theorem no_early_expiry (c : Cfg) (s : St) (dt a b : Nat) (ha : s.dlClient = some a) (hb : s.dlCovert = some b)
+    (h1 : s.now + dt ≤ a) (h2 : s.now + dt ≤ b) : step c s (.wait dt) = { s with now := s.now + dt } := by
+  have e1 : ¬ (a < s.now + dt) := by omega
+  have e2 : ¬ (b < s.now + dt) := by omega
+  cases hal : s.alive <;> simp [step, hal, ha, hb, expired, e1, e2]
+
+/-! non-vacuity: a one-directional upload that lasts seven stall timeouts is `paced` for the source's
+constants, so `keepalive_source` applies to it -/
+open CJ.RelayClock in
+example : paced sourceCfg.stall sourceCfg.init 0
+    ([Evt.wait 29000, .chunk true [1]] ++ (List.replicate 7 [Evt.wait 119000, .chunk true [2]]).flatten) = true := by decide
 
 end CJ.Props.C04Relay
